@@ -39,7 +39,8 @@ CLAIM = ('Over all code (not sampled inputs): every constant key used to index a
          'against tree.defaultNamespace; the DOM back-end checks the real parent before removing a child. Neither '
          'StopIteration (the pre-scan cursor running off its buffer) nor ValueError (bytes.index) can leave '
          'EncodingParser.getEncoding, for any cursor position reachable through the calls as written.'
-         " A single pop of the stack of open elements has evidence that the current node is not the root (just inserted / scope test, also through a verified helper / name test / mode invariant); within one insertion mode an element is looked up in one kind of scope; the DOM back-end calls no minidom method that recurses over the depth of the tree (read off the standard library's source).")
+         " A single pop of the stack of open elements has evidence that the current node is not the root (just inserted / scope test, also through a verified helper / name test / mode invariant); within one insertion mode an element is looked up in one kind of scope; the DOM back-end calls no minidom method that recurses over the depth of the tree (read off the standard library's source)."
+         " Every store that enters a mode whose handlers pop on the mode's current-node belief establishes it (insert-then-enter, or pop of the nested mode's node); the reset table names no such mode.")
 NOT_DECIDED = ("unreachability of the `assert ...innerHTML` sites in document mode, termination of the tree-construction "
                "reprocessing loop, exceptions raised inside xml.dom.minidom / ElementTree, wall-clock; the TypeError the "
                "pre-scan cursor raises for a negative position (no lower-bound fact is tracked).")
